@@ -34,6 +34,8 @@ def cases(tier, seed):
     for i, c in enumerate(cs):
         c["sel_seed"] = seed * 19 + i
         c["gen"]["base_blocks"] = (1, 2) if c["gen"]["bf"] >= 4 else (2, 3)
+        if c["gen"].get("nlevels", 1) >= 2 and not c["gen"].get("file_id_base"):      # as AMReX numbers its files
+            c["gen"]["file_id_base"] = "dense"
         c["pairs"] = (40 if tier == "quick" else 80) // K
         for k in range(K):
             d = dict(c); d["chunk"] = [k, K]
